@@ -178,11 +178,39 @@ def oracle_reward(case, ctx):
     again = f(S, objs.action(a), N)
     if again != got or objs.canon_state(S) != s or objs.canon_state(N) != n:
         ctx.fail(f'reward {spec["name"]} is not a read-only deterministic function', {'kind': 'reward_pure', 'name': spec['name']})
+    # the same two State objects, edited in place by their owner (doors toggled, the agent of the next state put back), asked again:
+    # the value is the documented one for the triple as it is now (nothing about an earlier question may be remembered by object)
+    import copy
+    from gym_gridverse.geometry import Position
+    from gym_gridverse import grid_object as go
+    n2 = copy.deepcopy(n)
+    back = (s['agent'][0], s['agent'][1])
+    edited = 0
+    for p in M.find(n2, lambda o: M.obj_type(o) == 'Door'):
+        if p in (back, M.apos(n2)):
+            continue
+        po = M.parse_obj(M.cell(n2, p))
+        new_status = 'OPEN' if po['status'] != 'OPEN' else 'CLOSED'
+        n2['grid'][p[0]][p[1]] = f"D:{new_status}:{po['color']}"
+        N.grid[Position(*p)].state = go.Door.Status[new_status]
+        edited += 1
+    if M.in_grid(n2, back) and not M.blocks_movement(M.cell(n2, back)) and back != M.apos(n2):
+        n2['agent'][0], n2['agent'][1] = back
+        N.agent.position = Position(*back)
+        edited += 1
+    if edited:
+        if objs.canon_state(N) != n2:
+            raise AssertionError('harness: in-place edit not reflected')
+        got2 = guarded(ctx, f'reward {spec["name"]} (after in-place edits)', f, S, objs.action(a), N)
+        exp2 = M.reward(spec, s, a, n2)
+        if not close(float(got2), exp2):
+            ctx.fail(f'reward {spec} on action {a}: after the next-state object was edited in place ({edited} edits: doors toggled / agent put back) the same objects give {got2!r}, '
+                     f'documented value for the triple as it is now {exp2!r} (first answer {got!r})', {'kind': 'reward_value', 'name': spec['name'], 'aspect': 'edited_in_place'})
     off = spec.get(OFF.get(spec['name'], ''), 0.0) if spec['name'] in OFF else 0.0
     fired = exp != off if spec['name'] != 'living_reward' else True
     zero = any(v == 0 and not isinstance(v, bool) for k, v in spec.items() if k.startswith('reward'))
-    ctx.ev.case(case, nt=fired, classes=[f'{spec["name"]}:{"on" if fired else "off"}', 'mode:' + case['mode'], 'via_factory' if via else 'direct'] + (['zero_valued_parameter'] if zero else []),
-                key=[s, a, n, spec])
+    ctx.ev.case(case, nt=fired, classes=[f'{spec["name"]}:{"on" if fired else "off"}', 'mode:' + case['mode'], 'via_factory' if via else 'direct'] + (['zero_valued_parameter'] if zero else [])
+                + (['asked_again_after_in_place_edit'] if edited else []), key=[s, a, n, spec])
 
 
 @st.composite
@@ -327,8 +355,8 @@ def oracle_hist(case, ctx):
 
 CHECKS = [
     Check('reward_components', oracle_reward, strategy=strat_reward, examples={'quick': 700, 'thorough': 2500}, shards={'quick': 4, 'thorough': 16},
-          rule='each built-in reward x generated finite parameters x (state, action, arbitrary or dynamics-produced next state) against the docstring model, exact value',
-          required=[f'{n}:on' for n in REWARDS] + ['mode:arbitrary', 'mode:dynamics', 'via_factory', 'direct', 'zero_valued_parameter']),
+          rule='each built-in reward x generated finite parameters x (state, action, arbitrary or dynamics-produced next state) against the docstring model, exact value; the same State objects are then edited in place (doors toggled, agent put back) and asked again',
+          required=[f'{n}:on' for n in REWARDS] + ['mode:arbitrary', 'mode:dynamics', 'via_factory', 'direct', 'zero_valued_parameter', 'asked_again_after_in_place_edit']),
     Check('termination_components', oracle_term, strategy=strat_term, examples={'quick': 500, 'thorough': 1500}, shards={'quick': 2, 'thorough': 16},
           rule='each built-in termination and nested reduce_any/reduce_all against the model',
           required=['reach_exit:on', 'bump_into_wall:on', 'bump_moving_obstacle:on', 'reduce_any:on', 'reduce_all:on', 'reduce_all:off']),
